@@ -138,6 +138,9 @@ theorem csa1 : convSumAxes 1 = [-1, -3] := by
 theorem cpad1 (p : Nat) : convPad 5 (.int p) 1 = [0,0,0,0,p,0,0,0,0,p] := by
   simp [convPad, List.range, List.range.loop]
 
+theorem cpad1a (p : Nat) : convPad 5 (.arr [p]) 1 = [0,0,0,0,p,0,0,0,0,p] := by
+  simp [convPad, List.range, List.range.loop]
+
 /-! ### the reshapes of the pipeline as index maps -/
 
 theorem lt_mul_of_lt {a b Og g : Nat} (ha : a < Og) (hb : b < g) : a * g + b < Og * g := by
@@ -178,11 +181,11 @@ theorem rsh_bias {O o : Nat} (ho : o < O) : reshapeIdx [O] [O, 1] [o, 0] = [o] :
 
 /-! ### stage 1: the weight -/
 
-/-- value of an optional argument form at `n_planes = 1` -/
-def dilV : PArg → Nat | .none => 1 | .int d => d | .arr _ => 0
+/-- value of an optional argument form at `n_planes = 1`: `None` ↦ 1, `d` ↦ `d`, the one-element index array `[d]` ↦ `d` -/
+def dilV : PArg → Nat | .none => 1 | .int d => d | .arr [d] => d | .arr _ => 0
 
-/-- accepted forms: None or a positive integer -/
-def PosForm (a : PArg) : Prop := a = .none ∨ ∃ d, 0 < d ∧ a = .int d
+/-- accepted forms: None, a positive integer, or a one-element index array with a positive entry -/
+def PosForm (a : PArg) : Prop := a = .none ∨ (∃ d, 0 < d ∧ a = .int d) ∨ (∃ d, 0 < d ∧ a = .arr [d])
 
 def rwArr (w : Arr Int) (Og g Cg K : Nat) : Arr Int := ⟨[Og, g, Cg, K], fun d => w.get (reshapeIdx w.shape [Og, g, Cg, K] d)⟩
 
@@ -200,13 +203,20 @@ theorem convWeight1_eq {w : Arr Int} {Og g Cg K : Nat} (hw : w.shape = [Og * g, 
   rw [hw, crw1, hdiv, hre]
   cases dil <;> rfl
 
+theorem cexp1 (d : Nat) : convExpandSpacing (.arr [d]) 1 = [d - 1] := by
+  simp [convExpandSpacing, List.range, List.range.loop]
+
 theorem awArr_shape {w : Arr Int} {Og g Cg K : Nat} (hK : 0 < K) {dil : PArg} (hdil : PosForm dil) :
     (awArr w Og g Cg K dil).shape = [Og, g, Cg, (K - 1) * dilV dil + 1] := by
-  rcases hdil with rfl | ⟨d, hd, rfl⟩
+  rcases hdil with rfl | ⟨d, hd, rfl⟩ | ⟨d, hd, rfl⟩
   · simp [awArr, rwArr, dilV]; omega
   · obtain ⟨d', rfl⟩ : ∃ d', d = d' + 1 := ⟨d - 1, by omega⟩
     obtain ⟨K', rfl⟩ : ∃ K', K = K' + 1 := ⟨K - 1, by omega⟩
     simp [awArr, rwArr, dilV, expandV, expandShape, cwa1, convExpandSpacing, posI]
+    ring
+  · obtain ⟨d', rfl⟩ : ∃ d', d = d' + 1 := ⟨d - 1, by omega⟩
+    obtain ⟨K', rfl⟩ : ∃ K', K = K' + 1 := ⟨K - 1, by omega⟩
+    simp [awArr, rwArr, dilV, expandV, expandShape, cwa1, cexp1, posI]
     ring
 
 theorem div_lt_of_lt_dil {k' K d : Nat} (hK : 0 < K) (hd : 0 < d) (h : k' < (K - 1) * d + 1) : k' / d < K := by
@@ -219,7 +229,7 @@ theorem div_lt_of_lt_dil {k' K d : Nat} (hK : 0 < K) (hd : 0 < d) (h : k' < (K -
 theorem awArr_get {w : Arr Int} {Og g Cg K : Nat} (hw : w.shape = [Og * g, Cg, K]) (hK : 0 < K) {dil : PArg} (hdil : PosForm dil)
     {a b c k' : Nat} (ha : a < Og) (hb : b < g) (hc : c < Cg) (hk : k' < (K - 1) * dilV dil + 1) :
     (awArr w Og g Cg K dil).get [a, b, c, k'] = if k' % dilV dil = 0 then w.get [a * g + b, c, k' / dilV dil] else 0 := by
-  rcases hdil with rfl | ⟨d, hd, rfl⟩
+  rcases hdil with rfl | ⟨d, hd, rfl⟩ | ⟨d, hd, rfl⟩
   · simp only [dilV, Nat.mul_one] at hk ⊢
     have hk' : k' < K := by omega
     simp only [Nat.mod_one, if_true, Nat.div_one, awArr, rwArr, hw]
@@ -233,13 +243,22 @@ theorem awArr_get {w : Arr Int} {Og g Cg K : Nat} (hw : w.shape = [Og * g, Cg, K
     · simp [hm, hw]
       rw [rsh_weight ha hb hc hk']
     · simp [hm]
+  · simp only [dilV] at hk ⊢
+    have hk' := div_lt_of_lt_dil hK hd hk
+    obtain ⟨d', rfl⟩ : ∃ d', d = d' + 1 := ⟨d - 1, by omega⟩
+    simp only [awArr, rwArr, expandV, expandGet, cwa1, cexp1, Nat.add_sub_cancel, List.zip_cons_cons, List.zip_nil_right, expandIdx, posI,
+      List.length_cons, List.length_nil]
+    by_cases hm : k' % (d' + 1) = 0
+    · simp [hm, hw]
+      rw [rsh_weight ha hb hc hk']
+    · simp [hm]
 
 /-! ### stage 2: the input -/
 
-def padVal : PArg → Nat | .none => 0 | .int p => p | .arr _ => 0
+def padVal : PArg → Nat | .none => 0 | .int p => p | .arr [p] => p | .arr _ => 0
 
-/-- accepted forms: None or an integer -/
-def IntForm (a : PArg) : Prop := a = .none ∨ ∃ p, a = .int p
+/-- accepted forms: None, an integer, or a one-element index array -/
+def IntForm (a : PArg) : Prop := a = .none ∨ (∃ p, a = .int p) ∨ (∃ p, a = .arr [p])
 
 def rinArr (x : Arr Int) (N g Cg L : Nat) : Arr Int :=
   ⟨[N, 1, g, Cg, L], fun d => x.get (reshapeIdx x.shape [N, 1, g, Cg, L] d)⟩
@@ -256,15 +275,18 @@ theorem convInput1_eq {x : Arr Int} {N g Cg L : Nat} (hx : x.shape = [N, g * Cg,
   have hre := reshapeV_some (a := x) (dst := [N, 1, g, Cg, L]) (by simp) hprod
   unfold convInput
   rw [hx, cri1, hdiv, hre]
-  rcases hpad with rfl | ⟨p, rfl⟩
+  rcases hpad with rfl | ⟨p, rfl⟩ | ⟨p, rfl⟩
   · rfl
   · simp only [List.length_cons, List.length_nil, Nat.reduceAdd, Nat.zero_add, padV, cpad1]
+    simp [ainArr, padVal, padShape, rinArr]
+  · simp only [List.length_cons, List.length_nil, Nat.reduceAdd, Nat.zero_add, padV, cpad1a]
     simp [ainArr, padVal, padShape, rinArr]
 
 theorem ainArr_shape {x : Arr Int} {N g Cg L : Nat} {pad : PArg} (hpad : IntForm pad) :
     (ainArr x N g Cg L pad).shape = [N, 1, g, Cg, L + 2 * padVal pad] := by
-  rcases hpad with rfl | ⟨p, rfl⟩
+  rcases hpad with rfl | ⟨p, rfl⟩ | ⟨p, rfl⟩
   · simp [ainArr, rinArr, padVal]
+  · simp [ainArr, padVal]; omega
   · simp [ainArr, padVal]; omega
 
 theorem padIdx_1d {N g Cg L p n b c j : Nat} (hn : n < N) (hb : b < g) (hc : c < Cg) :
@@ -278,18 +300,22 @@ theorem padIdx_1d {N g Cg L p n b c j : Nat} (hn : n < N) (hb : b < g) (hc : c <
 theorem ainArr_get {x : Arr Int} {N g Cg L : Nat} (hx : x.shape = [N, g * Cg, L]) {pad : PArg} (hpad : IntForm pad)
     {n b c j : Nat} (hn : n < N) (hb : b < g) (hc : c < Cg) (hj : j < L + 2 * padVal pad) :
     (ainArr x N g Cg L pad).get [n, 0, b, c, j] = padRead x L (padVal pad) n (b * Cg + c) j := by
-  rcases hpad with rfl | ⟨p, rfl⟩
-  · simp only [padVal, Nat.mul_zero, Nat.add_zero] at hj
-    simp only [ainArr, rinArr, padRead, padVal, hx, Nat.zero_le, true_and, Nat.add_zero, hj, if_true, Nat.sub_zero]
-    rw [rsh_input hn hb hc hj]
-  · simp only [padVal] at hj
-    simp only [ainArr, padVal, padGet, padRead, rinArr, padIdx_1d hn hb hc]
+  have padded : ∀ p, j < L + 2 * p →
+      padGet (rinArr x N g Cg L) [0, 0, 0, 0, p] [n, 0, b, c, j] = padRead x L p n (b * Cg + c) j := by
+    intro p hj
+    simp only [padGet, padRead, rinArr, padIdx_1d hn hb hc]
     by_cases h : p ≤ j ∧ j < L + p
     · have h1 : ¬ (j < p ∨ j ≥ L + p) := by omega
       simp only [h1, if_false, h, and_self, if_true, hx]
       rw [rsh_input hn hb hc (by omega)]
     · have h1 : (j < p ∨ j ≥ L + p) := by omega
       simp only [h1, if_true, h, if_false]
+  rcases hpad with rfl | ⟨p, rfl⟩ | ⟨p, rfl⟩
+  · simp only [padVal, Nat.mul_zero, Nat.add_zero] at hj
+    simp only [ainArr, rinArr, padRead, padVal, hx, Nat.zero_le, true_and, Nat.add_zero, hj, if_true, Nat.sub_zero]
+    rw [rsh_input hn hb hc hj]
+  · exact padded p hj
+  · exact padded p hj
 
 /-! ### stage 3: windows, multiply, sum, merge groups -/
 
@@ -370,22 +396,23 @@ theorem convBias1 {rs : Arr Int} {N O Lo : Nat} (hrs : rs.shape = [N, O, Lo]) (h
       Nat.reduceSub, List.drop_succ_cons, List.zipWith_cons_cons, List.zipWith_nil_right, if_true, bsel hn, bsel ho, bsel hl,
       rsh_bias ho]
 
-def strideVal : PArg → Nat | .none => 1 | .int s => s | .arr _ => 0
+def strideVal : PArg → Nat | .none => 1 | .int s => s | .arr [s] => s | .arr _ => 0
 
 theorem convStride1 {ad : Arr Int} {N O Lo : Nat} (had : ad.shape = [N, O, Lo]) {stride : PArg} (hs : PosForm stride) :
     (convStride 1 ad stride).shape = [N, O, (Lo + strideVal stride - 1) / strideVal stride] ∧
       ∀ n o l, (convStride 1 ad stride).get [n, o, l] = ad.get [n, o, l * strideVal stride] := by
-  rcases hs with rfl | ⟨s, hs, rfl⟩
+  rcases hs with rfl | ⟨s, hs, rfl⟩ | ⟨s, hs, rfl⟩
   · simp [convStride, strideVal, had]
   · simp [convStride, strideVal, sliceStepV, sliceStepShape, sliceStepIdx, convSteps, had]
+  · simp [convStride, strideVal, sliceStepV, sliceStepShape, sliceStepIdx, convSteps, had, List.range, List.range.loop]
 
 /-! ### assembly: conv1d = the nested loop -/
 
 theorem dilV_pos {a : PArg} (h : PosForm a) : 0 < dilV a := by
-  rcases h with rfl | ⟨d, hd, rfl⟩ <;> simp [dilV, *]
+  rcases h with rfl | ⟨d, hd, rfl⟩ | ⟨d, hd, rfl⟩ <;> simp [dilV, *]
 
 theorem strideVal_pos {a : PArg} (h : PosForm a) : 0 < strideVal a := by
-  rcases h with rfl | ⟨d, hd, rfl⟩ <;> simp [strideVal, *]
+  rcases h with rfl | ⟨d, hd, rfl⟩ | ⟨d, hd, rfl⟩ <;> simp [strideVal, *]
 
 /-- `⌈Lo/s⌉ = ⌊(L + 2p − d(K−1) − 1)/s⌋ + 1` where `Lo = L + 2p − ((K−1)d + 1 − 1)` is the stride-1 extent -/
 theorem out_arith {L K s p d : Nat} (hs : 0 < s) (hfit : (K - 1) * d + 1 ≤ L + 2 * p) :
